@@ -10,7 +10,6 @@ import importlib
 import json
 import logging
 import warnings
-from fractions import Fraction
 
 import numpy as np
 import pandas as pd
@@ -23,7 +22,7 @@ warnings.filterwarnings("ignore")
 logging.disable(logging.CRITICAL)
 
 TOL = 1e-9
-FDRS = (0.01, 0.05, 0.1, 0.2, 0.25, 0.5)
+FDRS = (0.05, 0.1, 0.2, 0.25, 0.3, 0.5)
 
 
 def _freeze(ck):
@@ -142,7 +141,7 @@ def _gen_case(rng, k):
         lab[int(rng.integers(n))] = False
     if not lab.any():
         lab[int(rng.integers(n))] = True
-    shift = float(rng.choice([0.0, 1.0, 2.5, 4.0]))
+    shift = float(rng.choice([0.0, 2.5, 4.0, 6.0]))
     scale = float(rng.choice([1, 10, 0.01]))
     scores = rng.normal(0, 1, n) * scale
     scores = scores + shift * lab * (np.abs(scores).max() / 3 + 1e-12) * (rng.random(n) < 0.7)
@@ -154,7 +153,7 @@ def _gen_case(rng, k):
     elif mode == 3:
         scores = scores - 50.0 * scale                      # all negative: sign conventions
     scores = np.round(scores, 5 if scale < 1 else 3) + 0.0  # short decimal representations (replay records)
-    fdr = float(FDRS[k % len(FDRS)]) if k % 3 else float(np.round(rng.uniform(0.02, 0.6), 3))
+    fdr = float(FDRS[k % len(FDRS)]) if k % 3 else float(np.round(rng.uniform(0.05, 0.6), 3))
     return scores.astype(float), lab, fdr
 
 
@@ -192,7 +191,7 @@ def check_calibrate(tier, seed):
         "calibrate", "mokapot.dataset.calibrate_scores, mokapot.dataset.OnDiskPsmDataset.calibrate_scores",
         "random: %d score vectors for the module-level function and %d for the on-disk method (tiny Parquet/TSV "
         "datasets), seed %d, 6..80 PSMs (on disk: at most 40), at least one target and one decoy, continuous / quarter-rounded / integer / "
-        "all-negative scores on scales 0.01, 1, 10, eval_fdr in %s or uniform(0.02, 0.6), desc=True (the only mode brew uses)"
+        "all-negative scores on scales 0.01, 1, 10, eval_fdr in %s or uniform(0.05, 0.6), desc=True (the only mode brew uses)"
         % (n_mod, n_disk, seed, list(FDRS)),
         "expected: RuntimeError iff no target has exact rational q <= eval_fdr; else (s - t)/(t - d), 0 at t, -1 at "
         "d, strictly increasing, checked when t > d (property domain); non-trivial = an accepted target exists, "
